@@ -156,6 +156,8 @@ def scramble(h, codes, trace=None, warmup=None):
       7  (Hypergraph / DirectedHypergraph) a REJECTED bulk removal: remove_edges([missing, e])
          with an existing hyperedge e listed after one that is not there; the error is caught
          (e is inserted again should the call have removed it)
+      8  remove a hyperedge, ask the queries, insert it again (the last mutation is an insertion)
+      9  insert an extra hyperedge, ask the queries, remove it (the last mutation is a removal)
     Nodes, hyperedges, weights and metadata are the same before and after.
     """
     kind = type(h).__name__
@@ -166,39 +168,77 @@ def scramble(h, codes, trace=None, warmup=None):
         z = fresh_label(nodes)
         edges = list(h.get_edges())
         a = sorted(nodes, key=repr)[0]
-        code = code % 8
+        code = code % 10
         if code == 7 and kind not in ("Hypergraph", "DirectedHypergraph"):
             code = 6
         if code == 6 and z is None:
             code = 4
-        if code == 5 and (warmup is None or kind not in ("Hypergraph", "DirectedHypergraph")):
+        if code in (5, 8, 9) and warmup is None:
             code = 4
         step = None
         if code == 2 and hasattr(h, "copy"):
             h = h.copy()
             step = "copy()"
-        elif code == 5 and edges and len(nodes) >= 2:
+        elif code in (5, 8, 9) and edges and len(nodes) >= 2:
             import itertools
+            variant = code
             e = edges[0]
-            w, m = h.get_weight(e), h.get_edge_metadata(e)
             ns = sorted(nodes, key=repr)
+            combos = (c for r in (2, 3, 1) for c in itertools.combinations(ns, r))
             if kind == "Hypergraph":
-                cands = (c for r in (2, 3, 1) for c in itertools.combinations(ns, r))
+                get = lambda x: (h.get_weight(x), h.get_edge_metadata(x))
+                rem = lambda x: h.remove_edge(x)
+                add = lambda x, **kw: h.add_edge(x, **kw)
+                cands = (c for c in combos if not h.check_edge(c))
+            elif kind == "DirectedHypergraph":
+                get = lambda x: (h.get_weight(x), h.get_edge_metadata(x))
+                rem = lambda x: h.remove_edge(x)
+                add = lambda x, **kw: h.add_edge(x, **kw)
+                cands = (((x,), (y,)) for x in ns for y in ns
+                         if x != y and not h.check_edge(((x,), (y,))))
+            elif kind == "TemporalHypergraph":
+                get = lambda x: (h.get_weight(x[1], x[0]), h.get_edge_metadata(x[1], x[0]))
+                rem = lambda x: h.remove_edge(x[1], x[0])
+                add = lambda x, **kw: h.add_edge(x[1], x[0], **kw)
+                cands = ((e[0], c) for c in combos if not h.check_edge(c, e[0]))
             else:
-                cands = (((x,), (y,)) for x in ns for y in ns if x != y)
-            other = next((c for c in cands if not h.check_edge(c)), None)
-            if other is not None:
-                h.remove_edge(e)
-                h.add_edge(other)
+                present = {(tuple(sorted(x, key=repr)), l) for x, l in edges}
+                get = lambda x: (h.get_weight(x[0], x[1]), h.get_edge_metadata(x[0], x[1]))
+                rem = lambda x: h.remove_edge((x[0], x[1]))
+                add = lambda x, **kw: h.add_edge(x[0], x[1], **kw)
+                cands = ((c, e[1]) for c in combos
+                         if (tuple(sorted(c, key=repr)), e[1]) not in present)
+            other = next(cands, None)
+
+            def ask():
                 try:
                     warmup(h)
                 except Violation:
                     raise
                 except Exception:  # noqa: the warm-up only populates caches
                     pass
-                h.remove_edge(other)
-                h.add_edge(e, **(dict(weight=w) if h.is_weighted() else {}), metadata=m)
-                step = "replace %r by %r, query, restore" % (e, other)
+            if other is not None:
+                w, m = get(e)
+                back = dict(weight=w) if h.is_weighted() else {}
+                if variant == 5:
+                    rem(e)
+                    add(other)
+                    ask()
+                    rem(other)
+                    add(e, metadata=m, **back)
+                    step = "replace %r by %r, query, restore" % (e, other)
+                elif variant == 8:
+                    # the last mutation before the module's own queries is an insertion
+                    rem(e)
+                    ask()
+                    add(e, metadata=m, **back)
+                    step = "remove %r, query, insert it again" % (e,)
+                else:
+                    # ... or a removal
+                    add(other)
+                    ask()
+                    rem(other)
+                    step = "insert %r, query, remove it" % (other,)
         elif code == 6:
             h.add_node(z)
             if warmup is not None:
@@ -334,7 +374,41 @@ def history_codes(*parts):
     if int(d[0], 16) < 8:
         return []
     n = 1 + int(d[1], 16) % 3
-    return [int(c, 16) % 8 for c in d[2:2 + n]]
+    return [int(d[2 + 2 * i:4 + 2 * i], 16) % 10 for i in range(n)]
+
+
+def default_warmup(h):
+    """Read-only queries that a caller may well have issued before handing the object on
+    (results discarded): a result memoised by the library during them is stale afterwards."""
+    kind = type(h).__name__
+    if kind == "Hypergraph":
+        calls = [lambda: h.binary_incidence_matrix(return_mapping=True),
+                 lambda: h.incidence_matrix(return_mapping=True),
+                 lambda: h.adjacency_matrix(return_mapping=True),
+                 lambda: h.get_mapping(), lambda: h.degree_sequence(),
+                 lambda: h.is_connected(), lambda: h.connected_components(),
+                 lambda: h.get_sizes(), lambda: h.max_size(), lambda: h.is_uniform(),
+                 lambda: h.distribution_sizes(), lambda: h.get_weights(),
+                 lambda: h.get_edges(metadata=True), lambda: h.get_nodes(metadata=True),
+                 lambda: h.isolated_nodes()]
+    elif kind == "DirectedHypergraph":
+        calls = [lambda: h.get_sources(), lambda: h.get_targets(), lambda: h.get_sizes(),
+                 lambda: h.get_weights(), lambda: h.get_edges(metadata=True),
+                 lambda: h.get_mapping(), lambda: h.max_size()]
+    elif kind == "TemporalHypergraph":
+        calls = [lambda: h.get_times_for_edge, lambda: h.subhypergraph(), lambda: h.aggregate(1),
+                 lambda: h.get_edges(metadata=True), lambda: h.get_weights(),
+                 lambda: h.min_time(), lambda: h.max_time()]
+    else:
+        calls = [lambda: h.get_edges(metadata=True), lambda: h.get_weights(),
+                 lambda: h.aggregated_hypergraph(), lambda: h.get_existing_layers()]
+    for c in calls:
+        try:
+            c()
+        except Violation:
+            raise
+        except Exception:  # noqa: a query that does not exist / does not apply is skipped
+            pass
 
 
 def with_history(build_fn=None, warmup=None):
@@ -344,6 +418,14 @@ def with_history(build_fn=None, warmup=None):
     import functools
     if build_fn is None:
         return lambda fn: with_history(fn, warmup=warmup)
+    if warmup is None:
+        warmup = default_warmup
+    else:
+        specific = warmup
+
+        def warmup(h):
+            default_warmup(h)
+            specific(h)
 
     @functools.wraps(build_fn)
     def wrapper(*args, **kw):
